@@ -106,10 +106,14 @@ def finder_cases(draw):
     )
     m = draw(st.sampled_from([
         "greedy-compressed", "greedy-span", "kahypar-agglom", "hyper",
-        "preset:greedy-compressed", "preset:greedy-span",
+        "preset:greedy-compressed", "preset:greedy-span", "windowed",
     ]))
     spec = {"kind": "finder", "net": net, "method": m, "seed": draw(st.integers(0, 99))}
-    if m != "hyper" and not m.startswith("preset:"):
+    if m == "windowed":
+        # a greedy-compressed tree refined window by window: with the default
+        # window (20 steps, more than these networks have) or an explicit one
+        spec["window"] = draw(st.sampled_from([None, None, 2, 4, 8]))
+    elif m != "hyper" and not m.startswith("preset:"):
         spec["params"] = draw(space_strategy(m))
     if m.startswith("preset:"):
         spec["entry"] = draw(st.sampled_from(["tree", "path"]))
@@ -334,6 +338,14 @@ def run_finder(spec):
                     path = ctg.array_contract_path(inputs, output, sizes, optimize=name, canonicalize=False, cache=False)
                     return ctg.ContractionTreeCompressed.from_path(inputs, output, sizes, path=path, autocomplete=False)
                 return ctg.array_contract_tree(inputs, output, sizes, optimize=name, canonicalize=False)
+            if m == "windowed":
+                # (built as a compressed tree from the finder's path: for <= 2
+                # tensors the interface answers with a plain tree, whose
+                # objective knows no cap)
+                path = ctg.array_contract_path(inputs, output, sizes, optimize="greedy-compressed", canonicalize=False, cache=False)
+                t0 = ctg.ContractionTreeCompressed.from_path(inputs, output, sizes, path=path)
+                kw_ = {} if spec.get("window") is None else {"window_size": spec["window"]}
+                return t0.windowed_reconfigure(max_iterations=3, seed=spec["seed"], **kw_)
             params = dict(spec["params"])
             tree = H._PATH_FNS[m](inputs, output, sizes, **params, **H.get_hyper_constants()[m])
             return tree
@@ -345,7 +357,7 @@ def run_finder(spec):
     else:
         check_tree(tree, inputs, output, sizes, viol, what)
         if not viol:
-            if m in ("greedy-compressed", "greedy-span", "hyper") and not isinstance(
+            if m in ("greedy-compressed", "greedy-span", "hyper", "windowed") and not isinstance(
                 tree, ctg.ContractionTreeCompressed
             ):
                 viol.append(f"{what} returned {type(tree).__name__}, not a ContractionTreeCompressed")
